@@ -146,8 +146,10 @@ def build_world(tape, tier):
         W.add("combine", dict(cd), "initial", f"combine{i}")
     W.add("cnr", objs["cnr_clean"], "initial", "cnr_clean")
     for name, kind in (("ref_nomask", "ref"), ("ref_alt", "ref"), ("ref_clean", "ref"), ("tcov_b", "tcov"),
-                       ("acov_b", "acov"),
-                       ("cnr_mirror", "cnr"), ("cnr_chr1", "cnr"), ("varr_empty", "varr"),
+                       ("acov_b", "acov"), ("tcov_null", "tcov"), ("access_unsorted", "access"),
+                       ("regions_nested", "access"),
+                       ("cnr_mirror", "cnr"), ("cnr_chr1", "cnr"), ("cnr_ontarget", "cnr"),
+                       ("varr_empty", "varr"),
                        ("varr_nozyg", "varr"),
                        ("baits_chr1", "baits")):
         W.add(kind, objs[name], "initial", name)
@@ -160,6 +162,13 @@ def build_world(tape, tier):
               "initial", "cnr_arms")
     W.add("sizes", dict(info["chrom_sizes"]), "initial", "chrom_sizes")
     W.add("thresholds", [-1.1, -0.25, 0.2, 0.7], "initial", "thresholds")
+    import numpy as _np
+    W.add("thresholds", (-1.3, -0.4, 0.3, 0.8, 1.2), "initial", "thresholds_tuple")
+    W.add("thresholds", _np.array([-0.25, 0.2, -1.1, 0.7]), "initial", "thresholds_unsorted_array")
+    W.add("thresholds", _np.array([-1.0, -0.2, 0.25]), "initial", "thresholds_array")
+    # lists of arrays, as `metrics` accepts them (one shared segmentation for several samples)
+    W.add("cnr_list", [objs["cnr"], objs["cnr_clean"]], "initial", "cnr_list2")
+    W.add("cns_list", [objs["cns"]], "initial", "cns_list1")
     return W, info
 
 
@@ -295,9 +304,11 @@ def ch_call(W, t, info):
         if f is not None and p["method"] != "none":
             ents.append(f)
             p["filters"] = True
-    if t.chance(1, 3, "call.usethr"):
+    if t.chance(1, 2, "call.usethr"):
         ents.append(W.pick(t, "thresholds", label="call.thr"))
         p["thresholds"] = True
+        if t.chance(3, 4, "call.thr_method"):
+            p["method"] = "threshold"  # the only method that reads them
     return ents, p
 
 
@@ -361,6 +372,10 @@ def run_bintest(o, p, procs):
 
 
 def ch_metrics(W, t, info):
+    if t.chance(1, 3, "mt.shared_lists"):
+        # the caller's own list objects: several samples, one shared segmentation
+        return [W.pick(t, "cnr_list", label="mt.cnrs"), W.pick(t, "cns_list", label="mt.cnss")], {
+            "segments": True, "skip_low": t.chance(1, 2, "mt.low"), "as_list": False, "shared_lists": True}
     ents = [W.pick(t, "cnr", label="mt.cnr")]
     p = {"segments": t.chance(2, 3, "mt.segs"), "skip_low": t.chance(1, 2, "mt.low"),
          "as_list": t.chance(1, 2, "mt.list")}
@@ -371,6 +386,8 @@ def ch_metrics(W, t, info):
 
 def run_metrics(o, p, procs):
     from cnvlib import metrics
+    if p.get("shared_lists"):
+        return metrics.do_metrics(o[0], o[1], skip_low=p["skip_low"])
     cn = [o[0]] if p["as_list"] else o[0]
     sg = None
     if p["segments"]:
